@@ -288,3 +288,73 @@ M("C04-benign-new-arm", "C04", "src/interrogate/typeManager.cxx",
   "  case CPPDeclaration::ST_typedef:\n    return involves_protected(type->as_typedef_type()->_type);\n",
   "  case CPPDeclaration::ST_typedef:\n    return involves_protected(type->as_typedef_type()->_type);\n\n  case CPPDeclaration::ST_array:\n    return involves_protected(type->as_array_type()->_element_type);\n",
   benign=True)
+
+# ---------------------------------------------------------------- C16
+M("C16-test-before-writers", "C16", "src/interrogate/interrogate_module.cxx",
+  "  int status = 0;\n\n  // Now output the table.",
+  "  if (interrogate_error_flag()) {\n    nout << \"Error reading interrogate data.\\n\";\n    output_code_filename.unlink();\n    exit(1);\n  }\n  int status = 0;\n\n  // Now output the table.",
+  expect="R16.1|main|error-flag-test")
+M("C16-exit-zero-on-error", "C16", "src/interrogate/interrogate_module.cxx",
+  "    output_code_filename.unlink();\n    exit(1);", "    output_code_filename.unlink();\n    exit(0);",
+  expect="R16.1|main|error-edge|non-zero-exit")
+M("C16-no-unlink", "C16", "src/interrogate/interrogate_module.cxx",
+  "    output_code_filename.unlink();\n    exit(1);", "    exit(1);",
+  expect="R16.1|main|error-edge|unlinks-output")
+M("C16-early-return-skips-test", "C16", "src/interrogate/interrogate_module.cxx",
+  "      if (build_python_native_wrappers) {\n        write_python_table_native(output_code);\n      }\n",
+  "      if (build_python_native_wrappers) {\n        write_python_table_native(output_code);\n        return status;\n      }\n",
+  expect="R16.1|main|write_python_table_native")
+M("C16-deps-empty-negated", "C16", "src/interrogate/interrogate_module.cxx",
+  "      if (deps.empty()) {\n        // OK, no remaining dependencies, so we can add this.", "      if (!deps.empty()) {\n        // OK, no remaining dependencies, so we can add this.",
+  expect="R16.2|ready-set|push-only-when-deps-empty")
+M("C16-no-uniqueness", "C16", "src/interrogate/interrogate_module.cxx",
+  "        if (std::find(libraries.begin(), libraries.end(), library_name) == libraries.end()) {\n          libraries.push_back(library_name);\n          added_any = true;\n        }",
+  "        {\n          libraries.push_back(library_name);\n          added_any = true;\n        }",
+  expect="R16.2|ready-set|push-at-most-once")
+M("C16-erase-unemitted", "C16", "src/interrogate/interrogate_module.cxx",
+  "        for (auto li = libraries.begin(); li != libraries.end(); ++li) {\n          deps.erase(*li);\n        }",
+  "        for (auto li = dependencies.begin(); li != dependencies.end(); ++li) {\n          deps.erase(li->first);\n        }",
+  expect="R16.2|erase#0")
+M("C16-benign-return-1", "C16", "src/interrogate/interrogate_module.cxx",
+  "    output_code_filename.unlink();\n    exit(1);", "    output_code_filename.unlink();\n    return 1;",
+  benign=True)
+
+# ---------------------------------------------------------------- C17
+M("C17-includer-before-cwd", "C17", "src/cppparser/cppPreprocessor.cxx",
+  "  if (!angle_quotes && filename.exists()) {\n    source = CPPFile::S_local;\n    return true;\n  }\n\n  // Search the same directory as the includer.\n  if (!angle_quotes) {\n    Filename match(get_file()._filename.get_dirname(), filename);\n    if (match.exists()) {\n      filename = match;\n      source = CPPFile::S_alternate;\n      return true;\n    }\n  }\n",
+  "  // Search the same directory as the includer.\n  if (!angle_quotes) {\n    Filename match(get_file()._filename.get_dirname(), filename);\n    if (match.exists()) {\n      filename = match;\n      source = CPPFile::S_alternate;\n      return true;\n    }\n  }\n\n  if (!angle_quotes && filename.exists()) {\n    source = CPPFile::S_local;\n    return true;\n  }\n",
+  expect="R17.1|find_include|probe#0")
+M("C17-angle-searches-cwd", "C17", "src/cppparser/cppPreprocessor.cxx",
+  "  if (!angle_quotes && filename.exists()) {\n    source = CPPFile::S_local;", "  if (filename.exists()) {\n    source = CPPFile::S_local;",
+  expect="R17.1|find_include|probe#0")
+M("C17-system-labelled-local", "C17", "src/cppparser/cppPreprocessor.cxx",
+  "    source = CPPFile::S_system;\n    return true;", "    source = CPPFile::S_alternate;\n    return true;",
+  expect="R17.1|find_include|probe#2")
+M("C17-noangles-ignored", "C17", "src/cppparser/cppPreprocessor.cxx",
+  "      filename = expr.substr(1, expr.size() - 2);\n      if (!_noangles) {\n        // If _noangles is true, we don't make a distinction between angle\n        // brackets and quote marks--all #include statements are treated the\n        // same, as if they used quote marks.\n        angle_quotes = true;\n      }",
+  "      filename = expr.substr(1, expr.size() - 2);\n      angle_quotes = true;",
+  expect="R17.1|handle_include_directive|angle-iff-not-noangles")
+M("C17-S-not-in-quote-path", "C17", "src/interrogate/interrogate.cxx",
+  "      parser._angle_include_path.append_directory(fn);\n      parser._quote_include_path.append_directory(fn);\n      parser._quote_include_kind.push_back(CPPFile::S_system);",
+  "      parser._angle_include_path.append_directory(fn);",
+  expect="R17.2|interrogate.cxx|-S")
+M("C17-I-kind-system", "C17", "src/interrogate/parse_file.cxx",
+  "      parser._quote_include_kind.push_back(CPPFile::S_alternate);", "      parser._quote_include_kind.push_back(CPPFile::S_system);",
+  expect="R17.2|parse_file.cxx|-I|quote-path-alternate")
+M("C17-prepend", "C17", "src/interrogate/interrogate.cxx",
+  "      parser._quote_include_path.append_directory(fn);\n      parser._quote_include_kind.push_back(CPPFile::S_alternate);",
+  "      parser._quote_include_path.prepend_directory(fn);\n      parser._quote_include_kind.push_back(CPPFile::S_alternate);",
+  expect="R17.2|interrogate.cxx|-I|one-kind-per-directory")
+M("C17-no-canonical", "C17", "src/cppparser/cppPreprocessor.cxx",
+  "    // If it was explicitly named on the command-line, mark it S_local.\n    filename.make_canonical();\n", "    // If it was explicitly named on the command-line, mark it S_local.\n",
+  expect="R17.4|handle_include_directive|canonical-before")
+M("C17-revert-explicit-absolute", "C17", "src/interrogate/interrogate.cxx",
+  "    filename.make_canonical();\n    parser._explicit_files.insert(filename);", "    filename.make_absolute();\n    parser._explicit_files.insert(filename);",
+  expect="R17.4|_explicit_files|insert-normaliser")
+M("C17-miss-is-error", "C17", "src/cppparser/cppPreprocessor.cxx",
+  "    warning(\"Cannot find \" + filename.get_fullpath(), loc);", "    error(\"Cannot find \" + filename.get_fullpath(), loc);",
+  expect="R17.1|handle_include_directive|miss-only-warns")
+M("C17-benign-canonicalise-earlier", "C17", "src/cppparser/cppPreprocessor.cxx",
+  "    _last_c = '\\0';\n\n    // If it was explicitly named on the command-line, mark it S_local.\n    filename.make_canonical();",
+  "    filename.make_canonical();\n    _last_c = '\\0';\n\n    // If it was explicitly named on the command-line, mark it S_local.",
+  benign=True)
